@@ -118,7 +118,8 @@ func getVariablesList(s ast.SelectionSet) []string {
 				continue
 			}
 
-			if a.Value != nil {
+			// only variables: a literal may spell the name of one (track(event: "avatar") next to $avatar)
+			if a.Value != nil && a.Value.Kind == ast.Variable {
 				args = append(args, a.Value.Raw)
 			}
 		}
@@ -138,7 +139,7 @@ func getArgumentListChildrenVariablesList(childs ast.ChildValueList) []string {
 			continue
 		}
 
-		if ch.Value != nil {
+		if ch.Value != nil && ch.Value.Kind == ast.Variable {
 			args = append(args, ch.Value.Raw)
 		}
 	}
